@@ -10,6 +10,7 @@
 From Coq Require Import ZArith List Bool.
 Require Import NS.theories.Generated NS.theories.Bump NS.theories.GenWiring NS.theories.Scratch.
 Require Import NS.proofs.BumpProofs NS.proofs.ScratchProofs.
+Require Import NS.theories.Utf8 NS.theories.CliInput NS.proofs.CliInputProofs.
 Import ListNotations.
 Open Scope Z_scope.
 
@@ -209,6 +210,27 @@ Theorem C14_exit_zero_iff_no_error :
 Proof. exact exit_zero_iff_no_error_lemma. Qed.
 Print Assumptions C14_exit_zero_iff_no_error.
 
+(* Input modes.  run_stdin appends read blocks of at most cli_stdin_block bytes (size read from
+   the source) to one buffer and validates the whole buffer once (the generated flag
+   cli_stdin_validates_whole_buffer selects that reader as the model; it is true only for that
+   shape of the source).  Then the text run_source receives — and whether the input is rejected
+   as invalid UTF-8 — is what file mode gives for the same bytes, however read(2) cut the input
+   into blocks: a pipe with small writes, a redirected file read in full blocks, anything. *)
+Theorem C14_stdin_equals_file :
+  forall blocks, stdin_source blocks = file_source (concat blocks).
+Proof. exact stdin_equals_file_lemma. Qed.
+Print Assumptions C14_stdin_equals_file.
+
+Theorem C14_stdin_chunking_independent :
+  forall blocks blocks', concat blocks = concat blocks' -> stdin_source blocks = stdin_source blocks'.
+Proof. exact stdin_chunking_independent_lemma. Qed.
+Print Assumptions C14_stdin_chunking_independent.
+
+Theorem C14_stdin_redirect_equals_file :
+  forall content, stdin_source (redirect_blocks content) = file_source content.
+Proof. exact stdin_redirect_equals_file_lemma. Qed.
+Print Assumptions C14_stdin_redirect_equals_file.
+
 (* ------------------------------------------------------------------ *)
 (* Non-vacuity *)
 
@@ -220,6 +242,25 @@ Proof. reflexivity. Qed.
    of its callers) read from `.offset()` of that same arena after it was handed the arena —
    re-read from the source on every check (GenWiring.runtime_reset_sites). *)
 Example runtime_resets_target_own_marks : forallb snd runtime_reset_sites = true.
+Proof. reflexivity. Qed.
+
+(* run_source has no way out other than the three guards of exit_code and its final value, and
+   the Option<plan> that the resolver leaves (None when an analysis cap was exceeded) reaches
+   run_with_analysis as it is: a program without a plan is run, not refused.  Same for the
+   playground entry point.  Re-read from the source on every check. *)
+Example cli_run_source_shape :
+  cli_plan_passthrough = true /\ cli_unguarded_returns = 0%nat /\
+  wasm_plan_passthrough = true /\ wasm_unguarded_returns = 0%nat.
+Proof. repeat split; reflexivity. Qed.
+
+(* validating block by block is NOT the same reader: "é" cut between two reads *)
+Example blockwise_reader_refuted :
+  read_blockwise [[99; 195]; [169; 10]] = None /\
+  read_whole [[99; 195]; [169; 10]] = Some [99; 195; 169; 10] /\
+  file_source [99; 195; 169; 10] = Some [99; 195; 169; 10].
+Proof. vm_compute. repeat split; reflexivity. Qed.
+
+Example stdin_block_positive : 0 < cli_stdin_block.
 Proof. reflexivity. Qed.
 
 Example exit_codes :
